@@ -278,6 +278,13 @@ fn node_rule(g: &mut Gen) -> String {
     }
 }
 
+/// the output side of a rule: after the arrow, before the environment
+fn out_part(r: &str) -> Option<String> {
+    let r = r.split(";;").next().unwrap_or("");
+    let (_, _, rest) = split_arrow(r)?;
+    Some(rest.split(|c| c == '/' || c == '|').next().unwrap_or("").to_string())
+}
+
 fn structural_rule(g: &mut Gen) -> String {
     if g.rng.chance(1, 5) { return node_rule(g) }
     match g.rng.below(16) {
@@ -314,7 +321,7 @@ pub fn c08(args: &[String]) -> i32 {
                         let r = &rules[i];
                         let fam = if why == "empty-syllable" || why == "no-syllable" {
                             if r.contains("⟨⟩") || r.contains("<>") { ":empty-structure" }
-                            else if r.trim_start().starts_with("* > $") || r.trim_start().starts_with("∅ > $") || (r.contains("> ") && r.split(" > ").nth(1).map_or(false, |o| o.trim_start().starts_with('$') || o.contains(" $"))) { ":boundary-inserted-at-word-edge" }
+                            else if r.trim_start().starts_with("* > $") || r.trim_start().starts_with("∅ > $") || out_part(r).map_or(false, |o| o.trim_start().starts_with('$') || o.contains(" $")) { ":boundary-inserted-at-word-edge" }
                             else if r.contains("&") && r.contains('$') { ":boundary-metathesis-at-word-edge" }
                             else if why == "no-syllable" && (r.contains("> *") || r.contains("> ∅") || r.contains("=> *") || r.contains("=> ∅") || r.contains("-> *") || r.contains("-> ∅")) { ":whole-word-deleted" }
                             else { "" }
